@@ -115,6 +115,15 @@ def check_fold(chk, rule, where, kf, what, *, kind, term=None, sense=None, init_
         return False
     found = kf.text()
     if "__ctx_" in found:
+        # alternatives that agree in every call context fold away
+        from ..symx import deep_simp, path_simp
+        for o in (kf, getattr(kf, "of", None)):
+            if o is not None and isinstance(getattr(o, "term", None), tuple):
+                o.term = path_simp(deep_simp(o.term))
+            if o is not None and isinstance(getattr(o, "filter", None), tuple):
+                o.filter = path_simp(deep_simp(o.filter))
+        found = kf.text()
+    if "__ctx_" in found:
         # the fold still depends on which call context holds: it was not brought to one form for all of them
         chk.undecided(rule, where, "%s: built as %s, which differs between the call contexts of the method; equivalence with %s not established" % (what, found[:200], expected))
         return False
@@ -164,7 +173,10 @@ def check_fold(chk, rule, where, kf, what, *, kind, term=None, sense=None, init_
                              "(the list is empty or wrong whenever they differ)" % (show(kf.key_mismatch[0]), show(kf.key_mismatch[1])))
             if label is not None and kf.label != label:
                 probs.append("lists `%s`, specification lists `%s`" % (show(kf.label), show(label)))
-            if kf.ties == "inconsistent":
+            if kf.ties == "band":
+                probs.append("ties are judged by `%s`, a comparison within a tolerance, while a better key resets the list by an exact comparison: 'equal within tolerance' is not "
+                             "transitive, so which actions end up listed together depends on the order of the transitions (and on float noise in the values)" % show(kf.tie_cond))
+            elif kf.ties == "inconsistent":
                 probs.append("the list is reset when `%s` is strictly better but ties are judged by `%s`: values that round to the same key do not tie consistently "
                              "(an equally optimal earlier action is dropped)" % (show(ext.term), show(kf.tie_cond)))
             elif need_ties and not kf.ties:
